@@ -259,6 +259,11 @@ func TEq(a, b *Term) *Term {
 	if a.Sort == SInt && (a.Hi < b.Lo || b.Hi < a.Lo) {
 		return TFalse
 	}
+	if a.Sort == SString {
+		if r := strEqSimplify(a, b); r != nil {
+			return r
+		}
+	}
 	if a.Sort == SBool {
 		if a.IsConst() {
 			if a.B {
@@ -591,14 +596,12 @@ func TFromCode(i *Term) *Term {
 }
 
 func TFromInt(i *Term) *Term {
-	// str.from_int yields "" for negatives: handle sign.
+	// decimal rendering of a (possibly negative) integer; printed as an ite over
+	// str.from_int, which yields "" for negatives
 	if i.IsConst() {
 		return TStr(strconv.FormatInt(i.I, 10))
 	}
-	if i.Lo >= 0 {
-		return mk("str.from_int", SString, i)
-	}
-	return TIte(TGe(i, TInt(0)), mk("str.from_int", SString, i), TConcat(TStr("-"), mk("str.from_int", SString, TNeg(i))))
+	return mk("fmtint", SString, i)
 }
 
 // ---- printing ----
@@ -653,6 +656,13 @@ func (t *Term) String() string {
 		}
 	case "sym":
 		s = smtSym(t.S)
+	case "fmtint":
+		a := t.Args[0].String()
+		if t.Args[0].Lo >= 0 {
+			s = "(str.from_int " + a + ")"
+		} else {
+			s = "(ite (<= 0 " + a + ") (str.from_int " + a + ") (str.++ \"-\" (str.from_int (- " + a + "))))"
+		}
 	default:
 		var b strings.Builder
 		b.WriteByte('(')
@@ -686,4 +696,65 @@ func sortedSymNames(m map[string]*Term) []string {
 	}
 	sort.Strings(ns)
 	return ns
+}
+
+
+// strParts splits a string term into a constant prefix and the remaining parts.
+func strParts(t *Term) (string, []*Term) {
+	switch {
+	case t.IsConst():
+		return t.S, nil
+	case t.Op == "str.++":
+		if t.Args[0].IsConst() {
+			return t.Args[0].S, t.Args[1:]
+		}
+		return "", t.Args
+	}
+	return "", []*Term{t}
+}
+
+func joinParts(prefix string, rest []*Term) *Term {
+	acc := TStr(prefix)
+	for _, r := range rest {
+		acc = TConcat(acc, r)
+	}
+	return acc
+}
+
+// strEqSimplify rewrites equalities between concatenations with constant prefixes and
+// between decimal renderings (injective); nil if nothing applies.
+func strEqSimplify(a, b *Term) *Term {
+	if a.Op == "fmtint" && b.Op == "fmtint" {
+		return TEq(a.Args[0], b.Args[0])
+	}
+	if a.Op == "fmtint" && b.IsConst() {
+		a, b = b, a
+	}
+	if b.Op == "fmtint" && a.IsConst() {
+		n, err := strconv.ParseInt(a.S, 10, 64)
+		if err != nil || strconv.FormatInt(n, 10) != a.S {
+			return TFalse
+		}
+		return TEq(b.Args[0], TInt(n))
+	}
+	pa, ra := strParts(a)
+	pb, rb := strParts(b)
+	if pa == "" && pb == "" {
+		return nil
+	}
+	n := 0
+	for n < len(pa) && n < len(pb) && pa[n] == pb[n] {
+		n++
+	}
+	if n < len(pa) && n < len(pb) {
+		return TFalse // constant prefixes diverge
+	}
+	if n == 0 {
+		return nil
+	}
+	if len(ra) == 0 && len(rb) == 0 {
+		return TBool(pa == pb)
+	}
+	na, nb := joinParts(pa[n:], ra), joinParts(pb[n:], rb)
+	return TEq(na, nb)
 }
